@@ -13,7 +13,7 @@ def _op(n):
 
 TABLE = {
     "C05": dict(
-        quick=["hostile", "rgate", "ids_edge", "reuse_s"], thorough=["hostile", "rgate", "ids_edge", "in_rm", "mps", "autodetect", "reuse_s", "reuse_c"],
+        quick=["hostile", "rgate", "ids_edge", "reuse_s", "early_acks"], thorough=["hostile", "rgate", "ids_edge", "in_rm", "mps", "autodetect", "reuse_s", "reuse_c", "early_acks"],
         rule="a peer frame (valid, boundary-valued, malformed or garbage) is handed to recv",
         nontrivial=lambda n: _op(n) in ("recv", "garbage"), profile="hostile"),
     "C06": dict(
@@ -28,8 +28,8 @@ TABLE = {
         nontrivial=lambda n: _op(n) == "recv" and ((_kind(n) == "publish" and n["call"]["pkt"]["qos"] == 2) or _kind(n) == "pubrel"),
         profile="inbound"),
     "C08": dict(
-        quick=["qos_c311", "qos_offline", "gate", "ids_edge"],
-        thorough=["qos_c311", "qos_c311_auto", "qos_c50", "qos_c50_rm", "qos_offline", "qos_server", "gate", "reuse_c", "ids_edge"],
+        quick=["qos_c311", "qos_offline", "gate", "ids_edge", "subs"],
+        thorough=["qos_c311", "qos_c311_auto", "qos_c50", "qos_c50_rm", "qos_offline", "qos_server", "gate", "reuse_c", "ids_edge", "subs"],
         rule="an identifier is acquired, registered or released",
         nontrivial=lambda n: _op(n) in ("acquire", "register", "release") or any(e["ev"] == "released" for e in n["out"]),
         profile="ids"),
@@ -42,7 +42,7 @@ TABLE = {
         rule="send is called (one cell of role x version x state x kind)",
         nontrivial=lambda n: _op(n) == "send", profile="gate"),
     "C12": dict(
-        quick=["qos_c50_rm", "qos_server", "in_rm", "rm_alias", "in_rm_mps"], thorough=["qos_c50_rm", "qos_c50", "qos_server", "in_rm", "crash_out", "rm_alias", "in_rm_mps"],
+        quick=["qos_c50_rm", "qos_server", "in_rm", "rm_alias", "in_rm_mps", "early_acks"], thorough=["qos_c50_rm", "qos_c50", "qos_server", "in_rm", "crash_out", "rm_alias", "in_rm_mps"],
         rule="a Receive Maximum is in force (vacancy reported)",
         nontrivial=lambda n: n["obs"]["vacancy"] >= 0 or (_op(n) == "recv" and _kind(n) == "publish"), profile="qos"),
     "C13": dict(
@@ -60,7 +60,7 @@ TABLE = {
         rule="a timer event is returned or a timer fires",
         nontrivial=lambda n: _op(n) == "fire" or any(e["ev"].startswith("timer") for e in n["out"]), profile="timers"),
     "C16": dict(
-        quick=["crash_out", "crash_in", "crash_order"], thorough=["crash_out", "crash_in", "crash_order"],
+        quick=["crash_out", "crash_in", "crash_order", "restore_bad"], thorough=["crash_out", "crash_in", "crash_order", "restore_bad"],
         rule="a restored copy runs next to the original after a crash point",
         nontrivial=lambda n: n.get("shadow") == "restored" or _op(n) == "crash", profile="crash"),
     "C17": dict(
